@@ -277,7 +277,8 @@ func runC03(c *core.Ctx) {
 				other = "english"
 			}
 			for pos := 0; pos < wc; pos++ {
-				for _, bad := range []string{"", "notaword", strings.ToUpper(words[base[pos]]), words[base[pos]] + " ", "\x00", "zoó"} {
+				w0 := words[base[pos]]
+				for _, bad := range []string{"", "notaword", strings.ToUpper(w0), w0 + " ", " " + w0, "\x00", rb39.ComposeKana(w0), w0 + "\u3099", w0 + "\u200b", w0[:len(w0)-1], "zoó"} {
 					if _, in := index[bad]; in {
 						continue
 					}
